@@ -15,7 +15,7 @@ KINDS = {
     # name: (format, dtype, channels)
     "fits/F32": ("fits", np.float32, 0), "npy/F32": ("npy", np.float32, 0), "npy/F64": ("npy", np.float64, 0),
     "png/RGBA": ("png", np.uint8, 4), "png/RGB": ("png", np.uint8, 3), "npy/U8": ("npy", np.uint8, 0), "fits/I16": ("fits", np.int16, 0),
-    "npy/RGBA": ("npy", np.uint8, 4),
+    "npy/RGBA": ("npy", np.uint8, 4), "npy/I32": ("npy", np.int32, 0), "fits/I32": ("fits", np.int32, 0),
 }
 
 
@@ -31,7 +31,12 @@ def make_leaf(r, dtype, ch, style):
             a[::2, 1::2] = np.nan
             a[1::2, ::2] = np.nan
     else:
-        a = r.randint(1, 250, size=shape).astype(dtype)
+        if np.dtype(dtype).itemsize == 4:
+            a = r.randint(2 ** 24, 2 ** 30, size=shape).astype(dtype)      # beyond single-precision integers
+        elif np.dtype(dtype).itemsize == 2:
+            a = r.randint(1, 32000, size=shape).astype(dtype)
+        else:
+            a = r.randint(1, 250, size=shape).astype(dtype)
         if ch == 4:
             if style == "holes":
                 a[..., 3][r.rand(256, 256) < 0.3] = 0
